@@ -505,4 +505,148 @@ theorem Manly.state_set (s : Manly.State ℝ) (x xm : ℝ) (h : s.xmax = some xm
   cases s with
   | mk l xm' => cases h; exact ⟨rfl, rfl⟩
 
+/-! ### Softmax — rows of any length -/
+
+theorem Softmax.bwdRow_fwdRow (xs : List ℝ) (hd : Softmax.dom xs) :
+    Softmax.bwdRow (Softmax.fwdRow xs) = xs := by
+  obtain ⟨hpos, hs⟩ := hd
+  have hs1 : 0 < 1 - Softmax.sumL xs := by linarith [eps_pos]
+  unfold Softmax.bwdRow Softmax.fwdRow
+  simp only [List.map_map]
+  rw [sumL_eq] at hs1 ⊢
+  have hexp : ∀ x ∈ xs, (Transc.exp ∘ fun x => Transc.log (x / (1 - xs.sum))) x = x / (1 - xs.sum) := by
+    intro x hx
+    simp only [Function.comp, transc_exp, transc_log]
+    exact Real.exp_log (div_pos (hpos x hx) hs1)
+  rw [List.map_congr_left hexp, sumL_eq, sum_map_div, List.map_map]
+  have hid : ∀ x ∈ xs, ((fun v => v / (1 + xs.sum / (1 - xs.sum))) ∘ fun x => x / (1 - xs.sum)) x = id x := by
+    intro x _
+    simp only [Function.comp, id]
+    field_simp; ring
+  rw [List.map_congr_left hid, List.map_id]
+
+theorem Softmax.fwdRow_bwdRow (ys : List ℝ) : Softmax.fwdRow (Softmax.bwdRow ys) = ys := by
+  unfold Softmax.bwdRow Softmax.fwdRow
+  simp only [List.map_map, sumL_eq, sum_map_div]
+  have hE := sum_exp_pos ys
+  have hid : ∀ y ∈ ys, ((fun x => Transc.log (x / (1 - (List.map Transc.exp ys).sum / (1 + (List.map Transc.exp ys).sum))))
+      ∘ (fun v => v / (1 + (List.map Transc.exp ys).sum)) ∘ Transc.exp) y = id y := by
+    intro y _
+    have hE' : 0 ≤ (List.map Transc.exp ys).sum := hE
+    simp only [Function.comp, id, transc_exp, transc_log]
+    have e : Real.exp y / (1 + (List.map Transc.exp ys).sum) /
+        (1 - (List.map Transc.exp ys).sum / (1 + (List.map Transc.exp ys).sum)) = Real.exp y := by
+      have : (1 : ℝ) + (List.map Transc.exp ys).sum ≠ 0 := by linarith
+      field_simp; ring
+    rw [e, Real.log_exp]
+  rw [List.map_congr_left hid, List.map_id]
+
+/-- a row with positive entries summing to at most `1 - EPS` is accepted and recovered -/
+theorem Softmax.backward_forward (xs : List ℝ) (hd : Softmax.dom xs) :
+    Softmax.forward xs >>= Softmax.backward = .ok xs := by
+  have h1 : Softmax.anyNeg xs = false := by
+    unfold Softmax.anyNeg
+    rw [List.any_eq_false]
+    intro x hx
+    have := hd.1 x hx
+    simp [not_lt.mpr this.le]
+  have h2 : Softmax.sumTooBig xs = false := by
+    unfold Softmax.sumTooBig
+    rw [decide_eq_false_iff_not, not_lt]; exact hd.2
+  simp only [Softmax.forward, h1, h2, Bool.false_eq_true, if_false, Softmax.backward]
+  show Except.ok (Softmax.bwdRow (Softmax.fwdRow xs)) = Except.ok xs
+  rw [Softmax.bwdRow_fwdRow xs hd]
+
+/-- any real row `ys` whose backward image passes the input checks (its sum is at most `1 - EPS`) -/
+theorem Softmax.forward_backward (ys : List ℝ) (hc : Softmax.codom ys) :
+    Softmax.backward ys >>= Softmax.forward = .ok ys := by
+  unfold Softmax.codom at hc
+  have h1 : Softmax.anyNeg (Softmax.bwdRow ys) = false := by
+    unfold Softmax.anyNeg
+    rw [List.any_eq_false]
+    intro x hx
+    have := hc.1 x hx
+    simp [not_lt.mpr this.le]
+  have h2 : Softmax.sumTooBig (Softmax.bwdRow ys) = false := by
+    unfold Softmax.sumTooBig
+    rw [decide_eq_false_iff_not, not_lt]; exact hc.2
+  show Softmax.forward (Softmax.bwdRow ys) = Except.ok ys
+  simp only [Softmax.forward, h1, h2, Bool.false_eq_true, if_false]
+  rw [Softmax.fwdRow_bwdRow]
+
+/-- the backward image always has positive entries (so `codom` only constrains the sum) -/
+theorem Softmax.bwdRow_pos (ys : List ℝ) : ∀ x ∈ Softmax.bwdRow ys, 0 < x := by
+  intro x hx
+  unfold Softmax.bwdRow at hx
+  simp only [List.map_map, List.mem_map, Function.comp] at hx
+  obtain ⟨y, _, rfl⟩ := hx
+  have hE : 0 ≤ (List.map Transc.exp ys).sum := sum_exp_pos ys
+  rw [sumL_eq]
+  simp only [transc_exp]
+  have := Real.exp_pos y
+  positivity
+
+/-- 2-D arrays: every row in the domain ⇒ accepted, and the rows are recovered -/
+theorem Softmax.backwardM_forwardM (rows : List (List ℝ)) (hd : ∀ r ∈ rows, Softmax.dom r) :
+    Softmax.forwardM rows >>= Softmax.backwardM = .ok rows := by
+  have h1 : rows.any Softmax.anyNeg = false := by
+    rw [List.any_eq_false]
+    intro r hr
+    have hdr := hd r hr
+    unfold Softmax.anyNeg
+    rw [Bool.not_eq_true, List.any_eq_false]
+    intro x hx
+    have := hdr.1 x hx
+    simp [not_lt.mpr this.le]
+  have h2 : rows.any Softmax.sumTooBig = false := by
+    rw [List.any_eq_false]
+    intro r hr
+    unfold Softmax.sumTooBig
+    rw [Bool.not_eq_true, decide_eq_false_iff_not, not_lt]; exact (hd r hr).2
+  simp only [Softmax.forwardM, h1, h2, Bool.false_eq_true, if_false]
+  show Except.ok ((rows.map Softmax.fwdRow).map Softmax.bwdRow) = Except.ok rows
+  rw [List.map_map]
+  have : ∀ r ∈ rows, (Softmax.bwdRow ∘ Softmax.fwdRow) r = id r := fun r hr => Softmax.bwdRow_fwdRow r (hd r hr)
+  rw [List.map_congr_left this, List.map_id]
+
+/-- a negative entry anywhere, or a row sum above `1 - EPS`, is rejected (never a silent NaN) -/
+theorem Softmax.forward_rejects (xs : List ℝ) (h : (∃ x ∈ xs, x < 0) ∨ 1 - eps < Softmax.sumL xs) :
+    ∃ e, Softmax.forward xs = .error e := by
+  unfold Softmax.forward
+  by_cases h1 : Softmax.anyNeg xs = true
+  · exact ⟨_, by rw [if_pos h1]⟩
+  · rw [if_neg h1]
+    rcases h with ⟨x, hx, hneg⟩ | h
+    · exfalso; apply h1
+      unfold Softmax.anyNeg
+      rw [List.any_eq_true]
+      exact ⟨x, hx, by simpa using hneg⟩
+    · have h2 : Softmax.sumTooBig xs = true := by unfold Softmax.sumTooBig; simpa using h
+      exact ⟨_, by rw [if_pos h2]⟩
+
+/-! ### backward_censored (base class) -/
+
+/-- whenever it returns a value, `backward_censored(y, censor) ≥ censor` -/
+theorem backwardCensored_ge (f b : ℝ → Option ℝ) (y c r : ℝ) (h : backwardCensored f b y c = some r) :
+    c ≤ r := by
+  unfold backwardCensored at h
+  simp only [Option.map_eq_some_iff] at h
+  obtain ⟨v, _, rfl⟩ := h
+  unfold maxv
+  split_ifs with hlt
+  · exact le_refl c
+  · exact not_lt.mp hlt
+
+/-- on a transform whose `forward(censor)` exists, `backward_censored(y, censor)` is
+`max(backward(max(y, forward(censor))), censor)` -/
+theorem backwardCensored_eq (f b : ℝ → Option ℝ) (y c t : ℝ) (h : f c = some t) :
+    backwardCensored f b y c = (b (max y t)).map fun v => max v c := by
+  have hm : ∀ a b : ℝ, maxv a b = max a b := by
+    intro a b; unfold maxv
+    split_ifs with hlt
+    · exact (max_eq_right hlt.le).symm
+    · exact (max_eq_left (not_lt.mp hlt)).symm
+  unfold backwardCensored
+  simp only [h, NanTest.isNaN, Bool.false_eq_true, if_false, hm]
+
 end HydroVerif.C01
